@@ -13,6 +13,7 @@ import (
 	"github.com/prometheus/client_golang/prometheus"
 	"github.com/prometheus/client_golang/prometheus/promhttp"
 	"github.com/semihalev/sdns/config"
+	"github.com/semihalev/sdns/internal/dnsutil"
 	"github.com/semihalev/sdns/middleware"
 	"github.com/semihalev/sdns/middleware/blocklist"
 	"github.com/semihalev/zlog/v2"
@@ -205,8 +206,15 @@ func (a *API) purge(ctx *Context) {
 		ctx.JSON(http.StatusBadRequest, Json{"error": "unknown qtype: " + qtypeName})
 		return
 	}
+	// The cache keys names as the unpacker spells them; the text of a URL
+	// segment can spell the same name differently and would purge nothing.
+	qname, ok := dnsutil.CanonicalPresentation(ctx.Param("qname"))
+	if !ok {
+		ctx.JSON(http.StatusBadRequest, Json{"error": "invalid qname"})
+		return
+	}
 	q := dns.Question{
-		Name:   dns.Fqdn(ctx.Param("qname")),
+		Name:   qname,
 		Qtype:  qtype,
 		Qclass: dns.ClassINET,
 	}
